@@ -2,6 +2,7 @@ package main
 
 import (
 	"fmt"
+	"strings"
 
 	"verif/internal/pgen"
 	"verif/internal/report"
@@ -72,7 +73,7 @@ func checkC03(c *Ctx) {
 }
 
 func noCustom(t *pgen.Type) bool {
-	return !t.Has(func(x *pgen.Type) bool { return x.K == pgen.KNamed && x.EqualMethod == "custom" })
+	return !t.Has(func(x *pgen.Type) bool { return x.K == pgen.KNamed && strings.HasPrefix(x.EqualMethod, "custom") })
 }
 
 func checkC04(c *Ctx) {
